@@ -12,7 +12,7 @@ RULE = ("exhaustive ordered operand pairs (string x phase) for N<=3, random host
         "distinct = distinct (sub-check, operands) digests")
 ASSUMPTIONS = ["oracle: 2x2 literal Pauli matrices + Kronecker products; independent 4x4 one-qubit table",
                "phases compared mod 4; dtypes not judged"]
-REQUIRED_SUBS = ["matmul.pure", "matmul.listop", "chain.operand", "matmul.table", "matmul.dense", "acq", "ipow", "chain.drift", "assoc", "square", "batch_dot",
+REQUIRED_SUBS = ["matmul.pure", "matmul.listop", "matmul.classes", "chain.operand", "matmul.table", "matmul.dense", "acq", "ipow", "chain.drift", "assoc", "square", "batch_dot",
                  "combine.chain", "acq_mat"]
 
 
@@ -204,6 +204,45 @@ def run_rand(shard, rec, B):
                 a1g, a1p = B.gp(A)
                 rec.check("matmul.listop", np.array_equal(ag, eg) and ap == int(ep) and np.array_equal(bg, eg) and bp == int(ep)
                           and np.array_equal(a1g, ag0) and a1p == ap0, ["rotated operand", O.show(ag0, ap0), O.show(gs[j], ps[j])], True)
+    # products between different classes (Pauli, monomial, polynomial) and the same after the Pauli was changed in place
+    for t in range(max(60, n // 40)):
+        N = int(rng.integers(1, 5))
+        g, p = gen.rand_string(rng, N), int(rng.integers(4))
+        P = B.Pauli(g.copy(), p)
+        hg, hp, hc = gen.rand_list(rng, 3, N), rng.integers(0, 4, 3), gen.rand_coeffs(rng, 3)
+        H = B.Poly(hg.copy(), hp.copy(), hc.copy())
+        DH = O.dense_poly(hg, hp, hc)
+        case = ["mixed classes", O.show(g, p), [[O.show(a, b), c] for a, b, c in zip(hg, hp, hc)]]
+
+        def dn(x):
+            if hasattr(x, "cs"):
+                return O.dense_poly(B.np(x.gs).reshape(-1, 2 * N), B.ph(x.ps), B.cnp(x.cs))
+            gg, pp = B.gp(x)
+            return (complex(x.c) if hasattr(x, "c") else 1.0) * O.dense(gg, pp)
+        cur = (g, p)
+        for stage in range(3):
+            DP = O.dense(cur[0], cur[1])
+            ok, R = rec.attempt("matmul.classes", case, lambda: (P @ H, H @ P))
+            if ok:
+                tol = 1e-8 if B.name == "np" else 1e-4
+                rec.check("matmul.classes", O.close(dn(R[0]), DP @ DH, tol * (1 + np.abs(DH).max())) and O.close(dn(R[1]), DH @ DP, tol * (1 + np.abs(DH).max())),
+                          case + [stage], True)
+            if hasattr(B.paulialg, "PauliMonomial"):
+                Mn = B.Pauli(hg[0].copy(), int(hp[0])).as_monomial()
+                Mn.c = 2.5 - 1j
+                ok, R = rec.attempt("matmul.classes", case, lambda: (P @ Mn, Mn @ P, Mn @ Mn))
+                if ok:
+                    DM = (2.5 - 1j) * O.dense(hg[0], hp[0])
+                    rec.check("matmul.classes", O.close(dn(R[0]), DP @ DM, 1e-8) and O.close(dn(R[1]), DM @ DP, 1e-8) and O.close(dn(R[2]), DM @ DM, 1e-8), case + ["mono", stage], True)
+            if stage == 0:
+                G, PG = gen.rand_nonid(rng, N), 2 * int(rng.integers(2))
+                P.rotate_by(B.Pauli(G, PG))
+                cur = O.rot_image(G, PG, cur[0], cur[1])
+                cur = (cur[0], int(cur[1]))
+            elif stage == 1:
+                mg, mp = O.random_map(rng, N)
+                P.transform_by(B.Map(mg, mp))
+                cur = O.map_image(mg, mp, cur[0], cur[1])
     # chains: running product, checked at every step (phase drift)
     for c in range(4):
         N = [3, 7, 33, 12][c]
